@@ -23,7 +23,9 @@ var directedProgs = []directedProg{
 	{"C04", "return value survives nested calls in the returned expression's siblings", "func g(n) {\n    if n == 0 {\n        return 0\n    }\n    return n + g(n - 1)\n}\nfunc h(n) {\n    for i in range(1, 3) {\n        if i == n {\n            return [i, g(i), g(n)]\n        }\n    }\n    return []\n}\n[h(1), h(2), h(3)]", "[[1 1 1] [2 3 3] [3 6 6]]"},
 	{"C04", "map loop visits keys which print the same once each", "m := {1 : \"a\", \"1\" : \"b\", true : \"c\", \"true\" : \"d\", 2 : \"e\"}\nseen := {\"a\" : 0, \"b\" : 0, \"c\" : 0, \"d\" : 0, \"e\" : 0}\nn := 0\nfor [k, v] in m {\n    seen[v] := seen[v] + 1\n    n := n + 1\n}\n[n, seen.a, seen.b, seen.c, seen.d, seen.e]", "[5 1 1 1 1 1]"},
 	{"C04", "otherwise does not run when the try block is left by continue, break or return", "log := []\nfunc f() {\n    try {\n        return 1\n    } otherwise {\n        log := add(log, \"o-return\")\n    }\n}\nf()\nfor i in [1, 2] {\n    try {\n        if i == 1 {\n            continue\n        }\n        break\n    } otherwise {\n        log := add(log, \"o-loop\")\n    }\n}\ntry {\n    x := 1\n} otherwise {\n    log := add(log, \"o-plain\")\n}\nlog", "[o-plain]"},
+	{"C04", "an error raised by a guard leaves the if statement: no later branch runs", "log := []\nfunc bad() {\n    raise(\"E1\", \"guard\")\n}\ntry {\n    if bad() {\n        log := add(log, \"then\")\n    } elif true {\n        log := add(log, \"elif\")\n    } else {\n        log := add(log, \"else\")\n    }\n    log := add(log, \"after\")\n} except \"E1\" {\n    log := add(log, \"handled\")\n}\ntry {\n    if false {\n        log := add(log, \"then2\")\n    } elif 1 + \"a\" > 2 {\n        log := add(log, \"elif2\")\n    } else {\n        log := add(log, \"else2\")\n    }\n} except e {\n    log := add(log, \"handled2\")\n}\nlog", "[handled handled2]"},
 	// C05
+	{"C05", "a value written under a number key is read back also when a string key prints the same", "m := {1 : \"a\", \"1\" : \"b\"}\nm[1] := \"c\"\nr := m[1]\nn := {\"k\" : {1 : {\"x\" : 0}, \"1\" : {\"x\" : 0}}}\nn.k[1].x := 5\n[r, n.k[1].x, len(m)]", "[c 5 2]"},
 	{"C05", "this of an outer method after a method call on an object made inside it", "Outer := {\n    \"name\" : \"outer\",\n    \"run\" : func () {\n        helper := new({\n            \"name\" : \"helper\",\n            \"getName\" : func () {\n                return this.name\n            }\n        })\n        before := this.name\n        inner := helper.getName()\n        after := this.name\n        return [before, inner, after]\n    }\n}\no := new(Outer)\no.run()", "[outer helper outer]"},
 	{"C05", "super of an outer constructor after constructing an inner object with its own super", "trace := []\nBaseA := {\n    \"init\" : func () {\n        trace := add(trace, \"A\")\n        this.base := \"A\"\n    }\n}\nBaseB := {\n    \"init\" : func () {\n        trace := add(trace, \"B\")\n        this.base := \"B\"\n    }\n}\nOuter := {\n    \"super\" : [BaseA],\n    \"init\" : func () {\n        this.part := new({\n            \"super\" : [BaseB],\n            \"init\" : func () {\n                super[0]()\n                this.kind := \"part\"\n            }\n        })\n        super[0]()\n        this.kind := \"outer\"\n    }\n}\no := new(Outer)\n[trace, o.base, o.kind, o.part.base, o.part.kind]", "[[B A] A outer B part]"},
 	{"C05", "concat returns a new list also when only one argument has items", "a := [1, 2]\nb := concat(a, [])\nb[0] := 9\nc := concat([], a, [])\nc[1] := 8\n[a, b, c]", "[[1 2] [9 2] [1 8]]"},
